@@ -15,7 +15,8 @@ CLAIM = (
     "naming.xml_class_name; (5) invariant descriptions pass through wrap_text_into_lines and the target's string_literal; (6) JOINED: in each "
     "transform_joined_str the literal parts of a formatted string reach the output through the target's literal function exactly once, and "
     "the escaping required by the target's interpolation syntax (doubled braces for Python f-strings and C# `$\"`, `${` for TypeScript "
-    "templates, %% for Go's Sprintf, none for the concatenating Java and C++) is applied to them and nowhere else."
+    "templates, %% for Go's Sprintf, none for the concatenating Java and C++) is applied to them and nowhere else; (7) the C++ SDK matches patterns with the regex VM, whose "
+    "quantifier expansion and `.*$` shortcut are checked as in C18 (REP, SUFFIX-OPT)."
 )
 NOTE = (
     "Trusted base: operator oracle table; identification of the transpiled operands by the names bound from self.transform(node.<field>). "
@@ -46,6 +47,11 @@ def run(ctx) -> None:
                     transp.check_reflow(ctx, f, "REFLOW")
         _check_description_flow(ctx, t, "DESC")
     _check_names(ctx)
+    ctx.rule("REP", "C++ regex VM: quantifier expansion emits the right number of fresh copies (shared with C18)", floor=3)
+    ctx.rule("SUFFIX-OPT", "C++ regex VM: the `.*$` shortcut only for a dot with minimum 0 and no maximum (shared with C18)", floor=4)
+    from . import c18 as _c18
+    _c18._check_repetitions(ctx)
+    _c18._check_suffix_optimisation(ctx)
     ctx.rule("JOINED", "formatted strings: literal parts escaped exactly once, interpolation-specific escaping only where the target needs it (six targets)", floor=10)
     for t in JOINED_TABLE:
         _check_joined_str(ctx, t)
